@@ -2,6 +2,11 @@ import Rawr.Proofs.RustSearchAgree
 import Rawr.Proofs.RustSearchAgree_QSearch
 /-!
 # Agreement for negamax.rs
+
+`R.negamax` (regenerated from negamax.rs), called with the model's stop function, is the model's `negamax`, fuel for
+fuel, under `OrderOkN fuel p` (`RustSearchAgree_QSearch.lean`; proved for every valid position with counter room in
+`RustSearchAgree_Rules.lean`).  The null-move subtree is only required to be `OrderOkN` when the node is not in check:
+the search tries the null move only then.
 -/
 namespace Rawr
 
@@ -127,8 +132,30 @@ theorem cut_rel (hit A B C : Bool) (flag : Nat) (score alpha beta : Int) (mv : M
         simp only [h0, h1, h2, if_false, Bool.false_eq_true]
         by_cases hge : alpha ≥ beta <;> simp [hge]
 
+/-! the part of the proof after the null move (ordering, move loop, table store); used for both ways past it -/
+set_option hygiene false in
+local macro "nm_rest2" : tactic => `(tactic| (
+  cases hsm : sortNm p (legalMoves p) (if (tte.hash == p.hash) = true then some tte.mv else none) with
+  | none => rfl
+  | some moves =>
+    simp only
+    have hperm := sortNm_perm p _ _ _ hsm
+    rw [← nmloop_eq (R.negamax (fun s => some (shouldStop lim s)) fuel) (negamax lim fuel) p b ply d2 p.inCheck moves
+      (fun m hm np hk => by
+        funext s a1 b1 pl dd cn
+        exact ih np (hok.2.2.1 m (hperm.mem_iff.mp hm) np hk) s a1 b1 pl dd cn) 0 _ (-10000000) none a]
+    generalize R.negamax_loop1 _ _ _ _ _ _ _ _ _ _ _ = lr
+    rcases lr with _ | ⟨st3, best, bm, a1⟩
+    · rfl
+    · cases bm with
+      | none => simp only [Option.map, Option.isNone, ↓reduceIte]; cases p.inCheck <;> rfl
+      | some u =>
+        simp only [Option.map, Option.isNone, Bool.false_eq_true, ↓reduceIte]
+        generalize st3.tt.add _ _ = r
+        cases r <;> rfl))
+
 /-- the regenerated `negamax`, called with the model's stop function, is the model's `negamax`. -/
-theorem agree_negamax (lim : Limit) : ∀ (fuel : Nat) (p : Position), OrderOk p →
+theorem agree_negamax (lim : Limit) : ∀ (fuel : Nat) (p : Position), OrderOkN fuel p →
     ∀ (st : SState) (alpha beta ply depth : Int) (canNull : Bool),
       R.negamax (fun s => some (shouldStop lim s)) fuel p st alpha beta ply depth canNull =
         negamax lim fuel p st alpha beta ply depth canNull := by
@@ -182,9 +209,14 @@ theorem agree_negamax (lim : Limit) : ∀ (fuel : Nat) (p : Position), OrderOk p
           subst ha hb htm
           clear heqR heqR' heqM heqM'
           symm
-          have ihn := ih p.makenull hok.null
-          have hsort := fun tt => agree_nm_sort p (legalMoves p) tt hok.here
-          simp only [repCount, Gen.DRAW_SCORE, Gen.INF, Gen.MATE_SCORE, ihn, hsort, agree_qsearch _ _ hok, ← apply_ite some]
+          have hnull : p.inCheck = true ∨ ∀ (st : SState) (alpha beta ply depth : Int) (canNull : Bool),
+              R.negamax (fun s => some (shouldStop lim s)) fuel p.makenull st alpha beta ply depth canNull =
+                negamax lim fuel p.makenull st alpha beta ply depth canNull := by
+            cases hic : p.inCheck with
+            | true => exact Or.inl rfl
+            | false => exact Or.inr (ih p.makenull (hok.2.2.2 hic))
+          have hsort := fun tt => agree_nm_sort p (legalMoves p) tt hok.1
+          simp only [repCount, Gen.DRAW_SCORE, Gen.INF, Gen.MATE_SCORE, hsort, agree_qsearch qFuel p hok.2.1, ← apply_ite some]
           generalize hd : (if p.inCheck = true then depth + 1 else depth) = d2
           by_cases hd0 : d2 ≤ 0
           · simp only [hd0, if_true]
@@ -210,29 +242,18 @@ theorem agree_negamax (lim : Limit) : ∀ (fuel : Nat) (p : Position), OrderOk p
                 clear hr1 hr2
                 cases rfp2
                 · simp only [Bool.false_eq_true, ↓reduceIte]
-                  generalize (if (!ply == 0 && canNull && decide (d2 > 2) && !p.inCheck && !isEndgame p) = true then _ else some (none, st1)) = nullRes
-                  rcases nullRes with _ | ⟨_ | e, st2⟩
-                  · rfl
-                  · simp only
-                    cases hsm : sortNm p (legalMoves p) (if (tte.hash == p.hash) = true then some tte.mv else none) with
-                    | none => rfl
-                    | some moves =>
-                      simp only
-                      have hperm := sortNm_perm p _ _ _ hsm
-                      rw [← nmloop_eq (R.negamax (fun s => some (shouldStop lim s)) fuel) (negamax lim fuel) p b ply d2 p.inCheck moves
-                        (fun m hm np hk => by
-                          funext s a1 b1 pl dd cn
-                          exact ih np (hok.move (hperm.mem_iff.mp hm) hk) s a1 b1 pl dd cn) 0 st2 (-10000000) none a]
-                      generalize R.negamax_loop1 _ _ _ _ _ _ _ _ _ _ _ = lr
-                      rcases lr with _ | ⟨st3, best, bm, a1⟩
-                      · rfl
-                      · cases bm with
-                        | none => simp only [Option.map, Option.isNone, ↓reduceIte]; cases p.inCheck <;> rfl
-                        | some u =>
-                          simp only [Option.map, Option.isNone, Bool.false_eq_true, ↓reduceIte]
-                          generalize st3.tt.add _ _ = r
-                          cases r <;> rfl
-                  · rfl
+                  rcases hnull with hic | ihn
+                  · have hc : (!ply == 0 && canNull && decide (d2 > 2) && !p.inCheck && !isEndgame p) = false := by
+                      simp [hic]
+                    simp only [hc, Bool.false_eq_true, ↓reduceIte]
+                    nm_rest2
+                  · simp only [ihn]
+                    generalize (if (!ply == 0 && canNull && decide (d2 > 2) && !p.inCheck && !isEndgame p) = true then _ else some (none, st1)) = nullRes
+                    rcases nullRes with _ | ⟨_ | e, st2⟩
+                    · rfl
+                    · simp only
+                      nm_rest2
+                    · rfl
                 · simp only [↓reduceIte]
               · simp only [↓reduceIte]
             · simp only [↓reduceIte]
